@@ -172,8 +172,13 @@ def pair_cases(rng, radii, nm, pairs, minw, per_pair):
                                 break
                             d = best
                             fr = np.array([0.998 if cn[t] else 0.002 for t in range(3)])
-                            # the first atom almost a full bond length inside the cell, its partner just beyond the face
+                        elif mode == "across-face":
+                            # the first atom almost a full bond length inside the cell, its partner just beyond the face; when the a-b face is
+                            # horizontal (orthorhombic and LAMMPS-oriented cells) the bond is put along its normal, so that the first atom
+                            # is a full bond length away from that face
                             inv = np.linalg.inv(cm)
+                            if cell[0][2] == 0 and cell[1][2] == 0:
+                                d = [0, 0, (1 if cell[2][2] > 0 else -1) * (math.ceil(real) - 1)]
                             df = np.array(d, float) @ inv
                             ax = int(np.argmax(np.abs(df)))
                             fr = np.array([rng.uniform(0.2, 0.8) for _ in range(3)])
